@@ -105,6 +105,20 @@ class LinearPaths:
         self._progress_log("merge_linear_paths", 0.05)
     return self
 
+  def __check_linear_path_mergeable(self, segpath):
+    ends = [se for se in segpath if se not in [True, False]]
+    ends = [gfapy.SegmentEnd(se) for se in ends]
+    for i in range(len(ends)-1):
+      a = ends[i]
+      b = gfapy.SegmentEnd(ends[i+1]).inverted()
+      for l in self.segment(a.segment).end_relations(a.end_type, b,
+                                                     "dovetails"):
+        if l.overlap and not (isinstance(l.overlap, gfapy.CIGAR) and
+            all(op.code in ["M","="] for op in l.overlap)):
+          raise gfapy.ValueError(
+              "Merging is only allowed if all operations are M/=\n"+
+              "Line: {}".format(l))
+
   def merge_linear_paths(self, redundant_junctions=False, jntag="jn",
                         merged_name=None, enable_tracking=False,
                         cut_counts=False):
@@ -139,6 +153,9 @@ class LinearPaths:
         information, if the redundant_junctions flag is set (default: jn)
     """
     paths = self.linear_paths(redundant_junctions)
+    # all paths are checked before the first one is merged
+    for path in paths:
+      self.__check_linear_path_mergeable(path)
     if self._progress:
       psize = sum([len(path) for path in paths])
       self._progress_log_init("merge_linear_paths", "segments", psize,
@@ -312,7 +329,8 @@ class LinearPaths:
       l = ls[0]
       if not l.overlap:
         cut = 0
-      elif all(op.code in ["M","="] for op in l.overlap):
+      elif isinstance(l.overlap, gfapy.CIGAR) and \
+          all(op.code in ["M","="] for op in l.overlap):
         cut = sum([len(op) for op in l.overlap])
       else:
         raise gfapy.ValueError(
